@@ -218,35 +218,6 @@ Definition o_ops (o : ocfg) : list thr :=
 Definition blocked_badly (o : ocfg) (tr : list label) : option thr :=
   find (fun t => o_started tr t && negb (o_returned tr t) && negb (o_legit o tr t)) (o_ops o).
 
-(* ---- the property monitor ------------------------------------------------------ *)
-(* Positions are indices into the label list.  [before a b] = both known and a < b. *)
-Fixpoint find_pos (f : wl -> bool) (ls : list wl) (i : nat) : option nat :=
-  match ls with [] => None | x :: r => if f x then Some i else find_pos f r (S i) end.
-Definition is_lab (k a b : Z) (x : wl) : bool :=
-  let '(k', a', b', _) := x in (k' =? k) && (a' =? a) && (b' =? b).
-Definition st_pos (ls : list wl) (a : Z) (b : nat) := find_pos (is_lab 0 a (Z.of_nat b)) ls 0.
-Definition rt_pos (ls : list wl) (a : Z) (b : nat) := find_pos (is_lab 1 a (Z.of_nat b)) ls 0.
-Definition rt_code (ls : list wl) (a : Z) (b : nat) : Z :=
-  match find (is_lab 1 a (Z.of_nat b)) ls with Some (_, _, _, v) => v | None => -1 end.
-Definition before (a b : option nat) : bool :=
-  match a, b with Some x, Some y => Nat.ltb x y | _, _ => false end.
-Definition lt_pos (a : option nat) (q : nat) : bool :=
-  match a with Some x => Nat.ltb x q | None => false end.
-Definition none_or_after (a : option nat) (q : nat) : bool :=
-  match a with Some x => Nat.ltb q x | None => true end.
-
-(* reads of subscription s with their positions; receive-starts of s *)
-Fixpoint reads_of (ls : list wl) (s : Z) (i : nat) : list (nat * Z) :=
-  match ls with
-  | [] => []
-  | (k, a, _, v) :: r => if (k =? 3) && (a =? s) then (i, v) :: reads_of r s (S i) else reads_of r s (S i)
-  end.
-Fixpoint reqs_of (ls : list wl) (s : Z) (i : nat) : list nat :=
-  match ls with
-  | [] => []
-  | (k, a, _, _) :: r => if (k =? 2) && (a =? s) then i :: reqs_of r s (S i) else reqs_of r s (S i)
-  end.
-
 Definition ocfg_of_cfg (c : cfg) : ocfg :=
   mkOcfg (map (fun p => Z.to_nat (fst p)) (c_emitters c))
          (map (fun s => let '(w, _, tys) := s in if w =? 1 then None else Some (map Z.to_nat tys)) (c_subs c))
@@ -258,132 +229,192 @@ Definition thr_code (t : thr) : Z * Z :=
   | TSub s => (3, Z.of_nat s) | TClose s => (4, Z.of_nat s) | _ => (9, 0)
   end.
 
-Section MON.
-  Variable c : cfg.
-  Variable ls : list wl.
 
-  Definition emitter_ty (j : Z) : Z := fst (nth (Z.to_nat j) (c_emitters c) (-1, 0)).
-  Definition emitter_sf (j : Z) : bool := zbool (snd (nth (Z.to_nat j) (c_emitters c) (0, 0))).
-  Definition emit_ty (k : nat) : Z := emitter_ty (fst (nth k (c_emits c) (-1, 0))).
-  Definition emit_ev (k : nat) : Z := snd (nth k (c_emits c) (0, -1)).
-  Definition find_emit (v : Z) : option nat := find_pos (fun p : wl => let '(_, _, _, x) := p in x =? v)
-      (map (fun p : Z * Z => (0, 0, 0, snd p)) (c_emits c)) 0.
-  Definition nemits : nat := length (c_emits c).
-  Definition sub_wild (s : nat) : bool := let '(w, _, _) := nth s (c_subs c) (0, 0, []) in w =? 1.
-  Definition sub_cap (s : nat) : Z := let '(_, cp, _) := nth s (c_subs c) (0, 0, []) in cp.
-  Definition sub_tys (s : nat) : list Z := let '(_, _, t) := nth s (c_subs c) (0, 0, []) in t.
-  Definition matches (s k : nat) : bool := sub_wild s || existsb (Z.eqb (emit_ty k)) (sub_tys s).
+(* ==== the monitor in decoded form ==========================================================
+   Same rules as above, stated on the decoded label list (Model.label) and a decoded
+   configuration, each check looking only at the labels BEFORE the label being judged.
+   This is the form the theorems are about; monitor_case decodes the wire line and runs it. *)
+Record dcfg := mkDcfg { d_nt : nat; d_em : list (nat * bool); d_sub : list (option (list nat) * nat); d_emit : list (nat * Z) }.
 
-  Definition e_start k := st_pos ls 2 k.  Definition e_ret k := rt_pos ls 2 k.
-  Definition e_ok k := rt_code ls 2 k =? 0.
-  Definition s_start s := st_pos ls 3 s.  Definition s_ret s := rt_pos ls 3 s.
-  Definition k_start s := st_pos ls 4 s.  Definition k_ret s := rt_pos ls 4 s.
+Definition dcfg_of_cfg (c : cfg) : dcfg :=
+  mkDcfg (Z.to_nat (c_ntypes c))
+         (map (fun p => (Z.to_nat (fst p), zbool (snd p))) (c_emitters c))
+         (map (fun s => let '(w, cap, tys) := s in ((if w =? 1 then None else Some (map Z.to_nat tys)), Z.to_nat cap)) (c_subs c))
+         (map (fun p => (Z.to_nat (fst p), snd p)) (c_emits c)).
+Definition ocfg_of_dcfg (d : dcfg) : ocfg := mkOcfg (map fst (d_em d)) (map fst (d_sub d)) (map fst (d_emit d)).
 
-  (* event k counts as "emitted while s was subscribed": Emit started after
-     Subscribe returned and succeeded *)
-  Definition fresh (s k : nat) : bool := before (s_ret s) (e_start k).
+(* prefix before the first label satisfying f *)
+Fixpoint cut (f : label -> bool) (l : list label) : option (list label) :=
+  match l with
+  | [] => None
+  | x :: r => if f x then Some [] else match cut f r with Some p => Some (x :: p) | None => None end
+  end.
+(* some A-label occurs before the first B-label *)
+Definition before_ (pre : list label) (fa fb : label -> bool) : bool :=
+  match cut fb pre with Some p1 => existsb fa p1 | None => false end.
 
-  (* a retained event is due for (s, type ty): some successful emit of ty
-     returned before Subscribe started while a stateful emitter of ty was open
-     from before that emit until after Subscribe returned (so the node and its
-     retained event existed throughout: DESIGN.md section 9 item 12) *)
-  Definition sf_open (ty : Z) (from to : option nat) : bool :=
-    existsb (fun j => (emitter_ty (Z.of_nat j) =? ty) && emitter_sf (Z.of_nat j)
-                      && before (rt_pos ls 0 j) from
-                      && match to with Some q => none_or_after (st_pos ls 1 j) q | None => false end)
-            (seq 0 (length (c_emitters c))).
-  Definition replay_due (s : nat) (ty : Z) : bool :=
-    negb (sub_wild s) && existsb (Z.eqb ty) (sub_tys s) &&
-    existsb (fun k => (emit_ty k =? ty) && e_ok k && before (e_ret k) (s_start s)
-                      && sf_open ty (e_start k) (s_ret s)) (seq 0 nemits).
+Definition lab_is_ret_code (t : thr) (c : Z) (l : label) : bool := match l with LRet t' c' => thr_eqb t t' && (c =? c') | _ => false end.
+Definition lab_is_req (s : nat) (l : label) : bool := match l with LReq s' => Nat.eqb s s' | _ => false end.
+Fixpoint reads_d (pre : list label) (s : nat) : list Z :=
+  match pre with
+  | [] => []
+  | LRead s' v :: r => if Nat.eqb s s' then v :: reads_d r s else reads_d r s
+  | _ :: r => reads_d r s
+  end.
 
-  Definition read_before (rs : list (nat * Z)) (p : nat) (f : Z -> bool) : bool :=
-    existsb (fun r => Nat.ltb (fst r) p && f (snd r)) rs.
-  Definition ev_ty (v : Z) : Z := match find_emit v with Some k => emit_ty k | None => -1 end.
-  Definition ev_nonfresh (s : nat) (v : Z) : bool :=
-    match find_emit v with Some k => negb (fresh s k) | None => false end.
+Section DMON.
+  Variable d : dcfg.
+  Definition dm_ty (k : nat) : option nat := match nth_error (d_emit d) k with Some (j, _) => option_map fst (nth_error (d_em d) j) | None => None end.
+  Definition dm_ev (k : nat) : option Z := option_map snd (nth_error (d_emit d) k).
+  Fixpoint find_ev (l : list (nat * Z)) (v : Z) (i : nat) : option nat :=
+    match l with [] => None | (_, x) :: r => if x =? v then Some i else find_ev r v (S i) end.
+  Definition dm_find (v : Z) : option nat := find_ev (d_emit d) v 0.
+  Definition dm_wild (s : nat) : bool := match nth_error (d_sub d) s with Some (None, _) => true | _ => false end.
+  Definition dm_tys (s : nat) : list nat := match nth_error (d_sub d) s with Some (Some tys, _) => tys | _ => [] end.
+  Definition dm_cap (s : nat) : nat := match nth_error (d_sub d) s with Some (_, c) => c | None => 0%nat end.
+  Definition ty_eqb (a b : option nat) : bool := match a, b with Some x, Some y => Nat.eqb x y | _, _ => false end.
+  Definition dm_matches (s k : nat) : bool :=
+    dm_wild s || match dm_ty k with Some ty => existsb (Nat.eqb ty) (dm_tys s) | None => false end.
+  Definition dm_emits : list nat := seq 0 (length (d_emit d)).
+  Definition dm_ev_ty (v : Z) : option nat := match dm_find v with Some k => dm_ty k | None => None end.
 
-  (* one delivered value v to s at position p, its receive having started at rq *)
-  Definition check_read (s : nat) (rs : list (nat * Z)) (p rq : nat) (v : Z) : Z :=
-    match find_emit v with
-    | None => 1                                              (* not an emitted event *)
-    | Some k =>
-        if negb (matches s k) then 2                         (* wrong type *)
-        else if negb (lt_pos (e_start k) p) || (rt_code ls 2 k =? 1) then 3   (* never (successfully) emitted yet *)
-        else if lt_pos (k_ret s) rq then 4                   (* delivered after Close returned *)
-        else if read_before rs p (Z.eqb v) then 5            (* duplicate *)
-        else if before (e_ret k) (s_start s) &&
-                (sub_wild s
-                 || negb (existsb (fun j => (emitter_ty (Z.of_nat j) =? emit_ty k) && emitter_sf (Z.of_nat j)
-                                            && lt_pos (st_pos ls 0 j) p) (seq 0 (length (c_emitters c))))
-                 || read_before rs p (fun v' => ev_ty v' =? emit_ty k)
-                 || existsb (fun k2 => (emit_ty k2 =? emit_ty k) && e_ok k2 && before (e_ret k) (e_start k2)
-                                       && before (e_ret k2) (s_start s)) (seq 0 nemits))
-             then 6                                          (* an old event that is not the retained one *)
-        else if none_or_after (k_start s) p &&
-                existsb (fun k2 => negb (Nat.eqb k2 k) && matches s k2 && e_ok k2 && fresh s k2
-                                   && before (e_ret k2) (e_start k)
-                                   && negb (read_before rs p (Z.eqb (emit_ev k2)))) (seq 0 nemits)
-             then 7                                          (* overtook / skipped an earlier event *)
-        else if none_or_after (k_start s) p && fresh s k && replay_due s (emit_ty k)
-                && negb (read_before rs p (fun v' => (ev_ty v' =? emit_ty k) && ev_nonfresh s v'))
-             then 8                                          (* a later event arrived before the retained one (judged only
-                                                                before Close starts: afterwards the drainer may have taken it) *)
-        else 0
-    end.
+  Section AT.
+    Variable pre : list label.
+    Definition a_started t := o_started pre t.
+    Definition a_returned t := o_returned pre t.
+    Definition a_ok k := existsb (lab_is_ret_code (TEmit k) 0) pre.
+    Definition a_failed k := existsb (lab_is_ret_code (TEmit k) 1) pre.
+    Definition a_fresh s k := before_ pre (lab_is_ret (TSub s)) (lab_is_start (TEmit k)).
+    Definition a_old s k := before_ pre (lab_is_ret (TEmit k)) (lab_is_start (TSub s)).
+    Definition a_rbs k2 k := before_ pre (lab_is_ret (TEmit k2)) (lab_is_start (TEmit k)).
+    Definition a_reads s := reads_d pre s.
+    Definition a_read s (f : Z -> bool) := existsb f (a_reads s).
+    (* a stateful emitter of the type was open from before Emit k0 started until Subscribe s returned *)
+    Definition a_sf_open (ty : nat) (k0 s : nat) : bool :=
+      existsb (fun j => match nth_error (d_em d) j with
+                        | Some (t, true) => Nat.eqb t ty && before_ pre (lab_is_ret (TEmNew j)) (lab_is_start (TEmit k0))
+                                            && a_returned (TSub s) && negb (before_ pre (lab_is_start (TEmClose j)) (lab_is_ret (TSub s)))
+                        | _ => false end) (seq 0 (length (d_em d))).
+    Definition a_replay_due (s ty : nat) : bool :=
+      negb (dm_wild s) && existsb (Nat.eqb ty) (dm_tys s) &&
+      existsb (fun k => ty_eqb (dm_ty k) (Some ty) && a_ok k && a_old s k && a_sf_open ty k s) dm_emits.
+    Definition a_nonfresh s (v : Z) : bool := match dm_find v with Some k => negb (a_fresh s k) | None => false end.
+    (* the receive that produced the next report on s started after Close(s) returned *)
+    Definition a_after_close s : bool :=
+      match cut (lab_is_ret (TClose s)) pre with
+      | Some p1 => Nat.leb (o_nreq p1 s) (o_nread pre s)
+      | None => false end.
 
-  (* at a quiescent point q (a label written by the harness after Wait) *)
-  Definition check_quiet (s : nat) (q : nat) : Z :=
-    let rs := reads_of ls (Z.of_nat s) 0 in
-    let nreads := length (filter (fun r => Nat.ltb (fst r) q) rs) in
-    let nreqs := length (filter (fun r => Nat.ltb r q) (reqs_of ls (Z.of_nat s) 0)) in
-    if negb (lt_pos (s_ret s) q) || negb (none_or_after (k_start s) q) then 0 else
-    let due := filter (fun k => matches s k && e_ok k && fresh s k && lt_pos (e_ret k) q) (seq 0 nemits) in
-    if Z.ltb (Z.of_nat nreads + sub_cap s) (Z.of_nat (length due)) then 9     (* Emit returned although the sink was full *)
-    else if Nat.ltb nreads nreqs &&
-            (existsb (fun k => negb (read_before rs q (Z.eqb (emit_ev k)))) due
-             || existsb (fun ty => replay_due s ty && negb (read_before rs q (fun v' => ev_ty v' =? ty))) (sub_tys s))
-         then 10                                             (* consumer waiting, event emitted, not delivered *)
-    else 0.
+    Definition d_check_read (s : nat) (v : Z) : Z :=
+      match dm_find v with
+      | None => 1
+      | Some k =>
+          if negb (dm_matches s k) then 2
+          else if negb (a_started (TEmit k)) || a_failed k then 3
+          else if a_after_close s then 4
+          else if a_read s (Z.eqb v) then 5
+          else if a_old s k &&
+                  (dm_wild s
+                   || negb (existsb (fun j => match nth_error (d_em d) j with
+                                              | Some (t, true) => ty_eqb (Some t) (dm_ty k) && a_started (TEmNew j) | _ => false end)
+                                    (seq 0 (length (d_em d))))
+                   || a_read s (fun v' => ty_eqb (dm_ev_ty v') (dm_ty k))
+                   || existsb (fun k2 => ty_eqb (dm_ty k2) (dm_ty k) && a_ok k2 && a_rbs k k2 && a_old s k2) dm_emits)
+               then 6
+          else if negb (a_started (TClose s)) &&
+                  existsb (fun k2 => negb (Nat.eqb k2 k) && dm_matches s k2 && a_ok k2 && a_fresh s k2 && a_rbs k2 k
+                                     && match dm_ev k2 with Some v2 => negb (a_read s (Z.eqb v2)) | None => false end) dm_emits
+               then 7
+          else if negb (a_started (TClose s)) && a_fresh s k
+                  && match dm_ty k with Some ty => a_replay_due s ty | None => false end
+                  && negb (a_read s (fun v' => ty_eqb (dm_ev_ty v') (dm_ty k) && a_nonfresh s v'))
+               then 8
+          else 0
+      end.
 
-  Fixpoint first_nz (f : nat -> Z) (l : list nat) : Z * nat :=
-    match l with [] => (0, O) | x :: r => if f x =? 0 then first_nz f r else (f x, x) end.
+    Definition a_due s : list nat :=
+      filter (fun k => dm_matches s k && a_ok k && a_fresh s k) dm_emits.
+    Definition d_check_quiet (s : nat) : Z :=
+      if negb (a_returned (TSub s)) || a_started (TClose s) then 0 else
+      if Nat.ltb (o_nread pre s + dm_cap s) (length (a_due s)) then 9
+      else if Nat.ltb (o_nread pre s) (o_nreq pre s) &&
+              (existsb (fun k => match dm_ev k with Some v => negb (a_read s (Z.eqb v)) | None => false end) (a_due s)
+               || existsb (fun ty => a_replay_due s ty && negb (a_read s (fun v' => ty_eqb (dm_ev_ty v') (Some ty)))) (dm_tys s))
+           then 10
+      else 0.
+  End AT.
+End DMON.
 
-  Definition nth_req (l : list nat) (i : nat) : nat := nth i l 0%nat.
+Fixpoint first_bad (f : nat -> Z) (l : list nat) : option (nat * Z) :=
+  match l with [] => None | x :: r => if f x =? 0 then first_bad f r else Some (x, f x) end.
 
-  Fixpoint mon_go (rest : list wl) (p : nat) : list Z :=
-    match rest with
-    | [] => []
-    | (k, a, b, v) :: r =>
-        let subsq := seq 0 (length (c_subs c)) in
-        let res :=
-          if k =? 4 then [ERR_PROPERTY; 11; Z.of_nat p]
-          else if (k =? 3) && (0 <=? v) then
-            let s := Z.to_nat a in
-            let rs := reads_of ls a 0 in
-            let idx := length (filter (fun x => Nat.ltb (fst x) p) rs) in
-            let d := check_read s rs p (nth_req (reqs_of ls a 0) idx) v in
-            if d =? 0 then [] else [ERR_PROPERTY; d; Z.of_nat p; a; v]
-          else if (k =? 0) || (k =? 2) || (k =? 5) then
-            let '(d, s) := first_nz (fun s => check_quiet s p) subsq in
-            if negb (d =? 0) then [ERR_PROPERTY; d; Z.of_nat p; Z.of_nat s]
-            else match (match labels_of (firstn p ls) with
-                        | Some tr => blocked_badly (ocfg_of_cfg c) tr | None => None end) with
-                 | Some t => [ERR_PROPERTY; 13; Z.of_nat p; fst (thr_code t); snd (thr_code t)]   (* a call is blocked without a stalled subscriber to blame *)
-                 | None =>
-            if (k =? 5) &&
-                    existsb (fun x : wl => let '(k', a', b', _) := x in
-                               (k' =? 0) && negb (existsb (is_lab 1 a' b') ls)) ls
-                 then [ERR_PROPERTY; 12; Z.of_nat p]          (* an operation never returned: deadlock *)
-            else []
-                 end
-          else [] in
-        match res with [] => mon_go r (S p) | _ => res end
-    end.
-End MON.
+(* the checks made when the harness is at a quiescent point, having seen [pre] *)
+Definition d_quiet_point (d : dcfg) (pre : list label) : list Z :=
+  let p := Z.of_nat (length pre) in
+  match first_bad (d_check_quiet d pre) (seq 0 (length (d_sub d))) with
+  | Some (s, r) => [ERR_PROPERTY; r; p; Z.of_nat s]
+  | None => match blocked_badly (ocfg_of_dcfg d) pre with
+            | Some t => [ERR_PROPERTY; 13; p; fst (thr_code t); snd (thr_code t)]
+            | None => [] end
+  end.
+
+Definition d_check_label (d : dcfg) (pre : list label) (l : label) : list Z :=
+  match l with
+  | LRead s v => if v =? -2 then [] else
+                 let r := d_check_read d pre s v in
+                 if r =? 0 then [] else [ERR_PROPERTY; r; Z.of_nat (length pre); Z.of_nat s; v]
+  | LStart _ | LReq _ => d_quiet_point d pre
+  | LRet _ _ => []
+  end.
+
+Fixpoint d_go (d : dcfg) (pre rest : list label) : list Z :=
+  match rest with
+  | [] => []
+  | l :: r => match d_check_label d pre l with [] => d_go d (pre ++ [l]) r | res => res end
+  end.
+
+(* at the end marker: the quiescent-point checks, and every started operation has returned *)
+Definition d_end (d : dcfg) (tr : list label) : list Z :=
+  match d_quiet_point d tr with
+  | [] => if existsb (fun t => o_started tr t && negb (o_returned tr t)) (o_ops (ocfg_of_dcfg d))
+          then [ERR_PROPERTY; 12; Z.of_nat (length tr)] else []
+  | res => res
+  end.
+
+(* [fin]: 0 the log simply stops, 4 a panic label follows, 5 the end marker follows *)
+Definition d_monitor (d : dcfg) (tr : list label) (fin : Z) : list Z :=
+  match d_go d [] tr with
+  | [] => if fin =? 4 then [ERR_PROPERTY; 11; Z.of_nat (length tr)]
+          else if fin =? 5 then d_end d tr else []
+  | res => res
+  end.
+
+(* the labels up to the first panic / end marker, and which of them came *)
+Fixpoint wire_labels (ls : list wl) : option (list label * Z) :=
+  match ls with
+  | [] => Some ([], 0)
+  | (k, a, b, v) :: r =>
+      if (k =? 4) || (k =? 5) then Some ([], k)
+      else match wire_labels r with
+           | None => None
+           | Some (lr, fin) =>
+               if k =? 2 then Some (LReq (Z.to_nat a) :: lr, fin)
+               else if k =? 3 then Some (LRead (Z.to_nat a) v :: lr, fin)
+               else if (k =? 0) || (k =? 1) then
+                 match thr_of a b with
+                 | Some t => Some ((if k =? 0 then LStart t else LRet t v) :: lr, fin)
+                 | None => None end
+               else None
+           end
+  end.
 
 Definition monitor_case (l : list Z) : list Z :=
   match decode l with
   | None => [ERR_MALFORMED; 0]
-  | Some (c, ls) => if negb (cfg_wf c) then [ERR_MALFORMED; 1] else mon_go c ls ls 0
+  | Some (c, ls) =>
+      if negb (cfg_wf c) then [ERR_MALFORMED; 1] else
+      match wire_labels ls with
+      | None => [ERR_MALFORMED; 2]
+      | Some (tr, fin) => d_monitor (dcfg_of_cfg c) tr fin
+      end
   end.
